@@ -20,6 +20,39 @@ CHECKS = {
             'All documents of <=4 (quick) / <=5 (thorough) nodes over 11 leaf kinds and 3 namespace names x 2 naming '
             'sweeps plus the per-kind payload space; exhaustive inside the bound.',
             'Trusted: vf/docgen.py (three independent printers). Documents are well-formed; malformed ones are C15.'),
+    'C07': ('DESIGN.md 4/C07', 'exhaustive enumeration of declaration placements x referring scopes x spellings, each '
+            'built by the real Builder, judged by a reference scope-chain lookup',
+            'Port types (3^4 placements x 3 scopes x 5 spellings x 2 directions), formal types (3^4 x 3 x 5 x 4 port '
+            'flavours incl. multi-client), claim reply enum (3^5 x 5), encapsulee (2^4 x 5): uniquely resolving cases '
+            'must use exactly the selected declaration in the generated text, all others must fail; exhaustive.',
+            'Trusted: modelgen.lookup. Types are read from the generated text; that the text compiles against distinct '
+            'non-convertible types is covered by the lab checks. Formal types resolving to non-externs: any failure accepted.'),
+    'C08': ('DESIGN.md 4/C08', 'stateless exploration of all set-iteration-order choice sequences (deviation bounded) of '
+            'real builds through an injected ControlledSet seam, validated against real PYTHONHASHSEED child processes',
+            'For 66 configurations naming 2-3 ports: every sequence of iteration-order permutations with <=1 (quick; 2 on '
+            'two configurations) / <=2 (thorough; 3 on two) non-identity choices gives byte-identical files and hashes; '
+            'hash = md5 recomputed; 8/64 real hash seeds x 2 insertion orders must reproduce the explored output and show '
+            'at least two real orders.',
+            'Seam covers iteration over sets of port names; anything else nondeterministic is caught only by the real-seed '
+            'child runs (demonstrated with a hash()-ordering mutant).'),
+    'C12': ('DESIGN.md 4/C12', 'explicit-state exploration of build histories on shared input objects, replayed on fresh '
+            'objects; un-pruned sweep + BFS pruned on a canonical deep snapshot incl. all module-level state',
+            'All histories of <=2 (quick) / <=3 (thorough) builds over 24 operations; every build compared with a '
+            'fresh-process reference, inputs deep-snapshotted before/after, support files compared with stand-alone '
+            'generation, module/class-level state digest compared with the pristine one.',
+            'Trusted: vf/snapshot.py. Pruning argument in the evidence; cross-checked by the un-pruned sweep.'),
+    'C19': ('DESIGN.md 4/C19', 'exhaustive enumeration of comment contents (strings over an alphabet with all line '
+            'breaks, hostile fragments, content trees) rendered by the real Comment and by the real Builder',
+            'Every piece of the rendered text after splitting at the union of Python and C++ line terminators starts '
+            'with // and carries the reference text; rendering is repeatable and non-destructive; in generated files '
+            'only comment lines change when copyright/creator change (4 models x 2 fields x 54 hostile strings).',
+            'Trusted: vf/refmodels/text.py and the union splitter in c19.py.'),
+    'C20': ('DESIGN.md 4/C20', 'full product enumeration of building-block descriptions rendered by the real cpp_gen, '
+            'token streams compared with an independent tokenizer; meaningful subset compiled with g++ -fsyntax-only',
+            '~91 000 descriptions of Function/Constructor/Destructor/Namespace/Struct/Class/sections/includes/members; '
+            'declaration and definition token streams must equal the expected ones; 5 200 meaningful functions composed '
+            'into structs inside rendered namespaces and syntax-checked; exhaustive, same in both tiers.',
+            'Trusted: the tokenizer and expected-token builders in c20.py; g++ 12.'),
     'C13': ('DESIGN.md 4/C13', 'deviation-bounded enumeration of model/configuration points x single-fault catalogue, each '
             'built by the real Builder under an alarm watchdog, judged by reference validity rules',
             'Every point within 2 (quick) / 3 (thorough) deviations of the base point must build to the exact 8-file set; '
